@@ -31,7 +31,7 @@ ASSUMPTIONS = [
 ]
 COMPONENTS = {"real": ["dali.sequences.Commissioning / _find_next", "dali.gear.general initialisation commands and responses"],
               "stub": ["bus and control gear incl. the random-address generator (sim/busim.py)", "driver"]}
-PROBES = ["units-found-in-initialisation-state", "second-run-same-arguments", "stacked-tridonic", "stacked-hasseb", "clash-restart", "two-clash-rounds", "redraw-equals-withdrawn-unit", "addresses-exhausted", "address-0xffffff",
+PROBES = ["second-line-commissioned-concurrently", "units-found-in-initialisation-state", "second-run-same-arguments", "stacked-tridonic", "stacked-hasseb", "clash-restart", "two-clash-rounds", "redraw-equals-withdrawn-unit", "addresses-exhausted", "address-0xffffff",
           "address-0", "preexisting-duplicates", "unit-does-not-store", "unit-does-not-verify", "dry-run", "readdress",
           "more-than-64-units", "empty-bus", "in-use-address-in-permitted-set"]
 
@@ -112,6 +112,11 @@ def gen_plan(seed, tier="quick"):
     if h.random() < 0.15:
         # the application runs it again later with the very same arguments object
         plan["second_run"] = True
+    if h.random() < 0.15:
+        # a second DALI line is being commissioned by the same process at the same time
+        plan["companion"] = {"units": [[h.getrandbits(24), h.getrandbits(24)][:h.randrange(1, 3)] + [0x100000 + 7919 * i]
+                                       for i in range(h.randrange(2, 5))],
+                             "pace": [h.choice([0, 0, 1, 1, 2, 5]) for _ in range(16)], "start": h.randrange(0, 40)}
     if seed % 60 == 11 and n <= 6:
         # 'stacked' transport through the real hid drivers (they report collisions
         # as framing errors, which commissioning needs; the serial gateways do not)
@@ -148,8 +153,22 @@ def run_plan(plan):
         bus.t_us = int(rr_.vtime * 1e6)
         frames = [v_ for b_, v_ in sr.frames]
     else:
-        sr = busim.run_sequence(gen, bus, cap=cap, log=log)
+        comp = None
+        env = None
+        if plan.get("companion"):
+            cp = plan["companion"]
+            cunits = [busim.Gear(short=None, randoms=list(st), name="K%d" % i) for i, st in enumerate(cp["units"])]
+            for g in cunits:
+                g._draw = (lambda g=g: _draw(g))
+            comp = busim.Stepper(Commissioning(available_addresses=list(range(20, 40))), busim.Bus(cunits), cap=6000)
+
+            def env(i, cmd, b):
+                if i >= cp["start"]:
+                    comp.step(cp["pace"][i % len(cp["pace"])])
+        sr = busim.run_sequence(gen, bus, cap=cap, log=log, env=env)
         frames = [c[1].frame.as_integer for c in sr.commands]
+        if comp is not None:
+            comp.finish()
     vs = []
     probes = {}
 
@@ -228,6 +247,13 @@ def run_plan(plan):
             V("second-run-wrong-addresses", "second run with the same arguments object (permitted %s) left the units "
               "with %s; expected %d distinct permitted addresses" % (
                   sorted(permitted)[:12], after2[:12], min(n, len(permitted))), site=mode)
+    if plan.get("companion") and not transport:
+        probes["second-line-commissioned-concurrently"] = 1
+        got_c = [g.short for g in cunits]
+        if comp.status != "return" or None in got_c or len(set(got_c)) != len(got_c) or \
+                any(a not in range(20, 40) for a in got_c):
+            V("concurrent-run-on-another-line-wrong", "the other line's run (%d unaddressed units, addresses 20..39 permitted) "
+              "ended %s %r with %s" % (len(cunits), comp.status, comp.exc, got_c), site=mode)
     if any(u.get("init0") not in (None, "disabled") for u in plan["units"]):
         probes["units-found-in-initialisation-state"] = 1
     if transport:
@@ -296,6 +322,10 @@ def run_seed(seed, tier):
 
 
 def shrink(plan):
+    if plan.get("companion"):
+        p = copy.deepcopy(plan)
+        del p["companion"]
+        yield p
     if plan.get("second_run"):
         p = copy.deepcopy(plan)
         del p["second_run"]
